@@ -93,7 +93,9 @@ pub fn check(c: &Case, obs: &mut Obs) -> Result<(), Fail> {
             version: c.forced,
             mask: Some((c.len % 8) as u8),
         },
-    );
+    )
+    // builder reuse / related predecessor builds, chosen deterministically from the case
+    .with_warm_sel(((c.len * 2654435761usize) >> 7) as u16 ^ (c.variant as u16) << 3);
     let min = min_version(c.level, c.mode, c.len);
     let expect: Result<usize, BuildErr> = match (min, c.forced) {
         (None, _) => Err(BuildErr::TooBig),
